@@ -314,3 +314,44 @@ Proof.
     destruct (IH st1 Hc1 Hp1 Ht) as (st2 & outs & He2 & Hc2 & Hp2).
     exists st2, (out :: outs). simpl. rewrite He, He2. auto.
 Qed.
+
+Lemma c05_bounded_lemma mk h st :
+  c05_inv st -> pos_inv st -> Forall arbitrary_pkt h ->
+  exists st' outs, run_dec mk st h = Ok (st', outs) /\ c05_inv st' /\ pos_inv st' /\
+    (length (d_sets st') <= Z.to_nat (c_maxShardSets + 1))%nat /\
+    Forall (fun ge : Z * list bytes =>
+              Z.of_nat (length (snd ge)) < d_data st' /\ Forall (fun e => blen e <= c_mtuLimit) (snd ge))
+           (d_sets st') /\
+    length (at_pulses (d_at st')) = Z.to_nat c_maxAutoTuneSamples /\
+    (length (at_window (d_at st')) <= Z.to_nat c_maxAutoTuneSamples)%nat.
+Proof.
+  intros Hc Hp Hall. destruct (run_dec_bounded mk h st Hc Hp Hall) as (st' & outs & He & Hc' & Hp').
+  exists st', outs. split; [assumption|]. split; [assumption|]. split; [assumption|].
+  split; [apply pos_inv_groups_le; assumption|].
+  destruct Hc' as (Hd & Hsm & Hat). split; [exact Hsm|].
+  destruct Hat as (Hl & Hcnt & _). split; [exact Hl|].
+  rewrite at_window_length. unfold at_N in *. lia.
+Qed.
+
+Lemma c05_bounded_from_new mk d p st0 h :
+  dec_new d p = Some st0 -> Forall arbitrary_pkt h ->
+  exists st' outs, run_dec mk st0 h = Ok (st', outs) /\
+    (length (d_sets st') <= Z.to_nat (c_maxShardSets + 1))%nat /\
+    Forall (fun ge : Z * list bytes =>
+              Z.of_nat (length (snd ge)) < d_data st' /\ Forall (fun e => blen e <= c_mtuLimit) (snd ge))
+           (d_sets st') /\
+    length (at_pulses (d_at st')) = Z.to_nat c_maxAutoTuneSamples /\
+    (length (at_window (d_at st')) <= Z.to_nat c_maxAutoTuneSamples)%nat.
+Proof.
+  intros Hn Hall.
+  destruct (c05_bounded_lemma mk h st0 (dec_new_c05 d p st0 Hn) (dec_new_pos d p st0 Hn) Hall)
+    as (st' & outs & He & _ & _ & H1 & H2 & H3 & H4).
+  exists st', outs. auto.
+Qed.
+
+Lemma c05_example_lemma :
+  (exists st0, dec_new 10 3 = Some st0 /\ c05_inv st0 /\ pos_inv st0) /\ Z.to_nat (c_maxShardSets + 1) = 4%nat.
+Proof.
+  split; [|reflexivity]. eexists. split; [reflexivity|].
+  split; [apply (dec_new_c05 10 3); reflexivity|apply (dec_new_pos 10 3); reflexivity].
+Qed.
